@@ -127,8 +127,36 @@ Definition exec_req (r : req) (b : bucket) : bucket * resp :=
   end.
 
 (* ---- interpreters ---- *)
-(* a fault plan maps the index of a storage request (RHash excluded) to an outcome *)
 Inductive outcome := OOk | OErr | OGone (* well-formed NoSuchKey even if present *).
+
+(* a fault: the [f_occ]-th request (from 0) of kind [f_kind] (0 LIST, 1 GET, 2 PUT, 3 DELETE)
+   on prefix [f_pfx], to the object [f_name] (None = any object), gets outcome [f_out] *)
+Record fault := { f_kind : Z; f_pfx : pfx; f_name : option name; f_occ : Z; f_out : outcome }.
+
+Definition pfx_eqb (a b : pfx) : bool :=
+  match a, b with PNode, PNode | PCur, PCur | PMerged, PMerged => true | _, _ => false end.
+
+Definition req_kind (r : req) : Z :=
+  match r with RList _ => 0 | RGet _ _ => 1 | RPut _ _ _ => 2 | RDel _ _ => 3 | RHash _ => -1 end.
+Definition req_pfx (r : req) : pfx :=
+  match r with RList p | RGet p _ | RPut p _ _ | RDel p _ => p | RHash _ => PNode end.
+Definition req_name (r : req) : option name :=
+  match r with RGet _ n | RPut _ n _ | RDel _ n => Some n | _ => None end.
+
+Definition fault_matches (f : fault) (r : req) : bool :=
+  (f_kind f =? req_kind r) && pfx_eqb (f_pfx f) (req_pfx r) &&
+  match f_name f with
+  | None => true
+  | Some n => match req_name r with Some m => n =? m | None => false end
+  end.
+
+(* outcome for request r given the requests issued so far (newest first) *)
+Definition plan_outcome (plan : list fault) (tr : list (req * bool)) (r : req) : outcome :=
+  match find (fun f => fault_matches f r &&
+                       (f_occ f =? Z.of_nat (length (filter (fun e => fault_matches f (fst e)) tr)))) plan with
+  | Some f => f_out f
+  | None => OOk
+  end.
 
 Inductive result (A : Type) := Done (a : A) | Failed (e : Z) | Crashed | OutOfFuel.
 Arguments Done {A}. Arguments Failed {A}. Arguments Crashed {A}. Arguments OutOfFuel {A}.
@@ -136,7 +164,7 @@ Arguments Done {A}. Arguments Failed {A}. Arguments Crashed {A}. Arguments OutOf
 (* [crash]: Some k = the process dies when it is about to issue its (k+1)-th MUTATING
    request (k mutations are applied).  [plan i] is consulted for the i-th storage request.
    Returns the final bucket, the result and the trace of storage requests issued. *)
-Fixpoint run {A} (fuel : nat) (plan : Z -> outcome) (crash : option Z)
+Fixpoint run {A} (fuel : nat) (plan : list fault) (crash : option Z)
          (i muts : Z) (b : bucket) (p : prog A) (tr : list (req * bool))
   : bucket * result A * list (req * bool) :=
   match fuel with
@@ -152,7 +180,7 @@ Fixpoint run {A} (fuel : nat) (plan : Z -> outcome) (crash : option Z)
               if is_mut r && (match crash with Some c => c <=? muts | None => false end)
               then (b, Crashed, tr)
               else
-                match plan i with
+                match plan_outcome plan tr r with
                 | OOk => let '(b', rs) := exec_req r b in
                          run f plan crash (i + 1) (if is_mut r then muts + 1 else muts) b' (k rs)
                              ((r, true) :: tr)
@@ -163,7 +191,7 @@ Fixpoint run {A} (fuel : nat) (plan : Z -> outcome) (crash : option Z)
       end
   end.
 
-Definition no_faults : Z -> outcome := fun _ => OOk.
+Definition no_faults : list fault := [].
 
 End Store.
 
